@@ -83,8 +83,9 @@ def main():
     def make_geo(name, dim):
         if name == 'id':
             return geometry.unit_square() if dim == 2 else geometry.unit_cube(dim=dim)
-        if name == 'scaled':      # affine, anisotropic
-            return geometry.identity([(0.0, 2.0), (0.0, 0.5), (0.0, 1.5)][:dim])
+        if name == 'scaled':      # affine, anisotropic: the unit box map with scaled coordinates
+            g = geometry.unit_square() if dim == 2 else geometry.unit_cube(dim=dim)
+            return bspline.BSplineFunc(g.kvs, np.asarray(g.coeffs) * np.array([2.0, 0.5, 1.5][:dim]))
         if name == 'curved':
             if dim == 2:
                 return geometry.bspline_quarter_annulus()
